@@ -203,7 +203,9 @@ func (d *decoder) decodeFileData() error {
 				return fmt.Errorf("parsing compressed timestamp message: %w", err)
 			}
 			if msg.IsValid() {
-				d.file.add(msg)
+				if err = d.addMsg(msg); err != nil {
+					return err
+				}
 			}
 		case (b & mesgDefinitionMask) == mesgDefinitionMask:
 			dm, err = d.parseDefinitionMessage(b)
@@ -217,13 +219,25 @@ func (d *decoder) decodeFileData() error {
 				return fmt.Errorf("parsing data message: %w", err)
 			}
 			if msg.IsValid() {
-				d.file.add(msg)
+				if err = d.addMsg(msg); err != nil {
+					return err
+				}
 			}
 		default:
 			return fmt.Errorf("unknown record header, got: %#x", b)
 		}
 	}
 
+	return nil
+}
+
+// addMsg adds a decoded message to the file. The container was chosen from
+// the first file_id message, so a later one must not change the file type.
+func (d *decoder) addMsg(msg reflect.Value) error {
+	if id, ok := msg.Interface().(FileIdMsg); ok && id.Type != d.file.FileId.Type {
+		return FormatError("file_id message changes the file type")
+	}
+	d.file.add(msg)
 	return nil
 }
 
